@@ -144,6 +144,80 @@ def ladder(cut: int, rst: bool, fail: int, ei: int) -> bool:
     return calls == ["/ok"] and len(rs) == 1 and rs[0]["code"] == 200 and rs[0]["body"] == b"ok" and c2.closed >= 1
 
 
+# ---- a connection that goes away before accept(): the accept loops survive and serve what comes next ---------------------------
+def accept_abort(ei: int, loop: int, nbad: int) -> bool:
+    """
+    pre: 0 <= ei <= 2 and 0 <= loop <= 2 and 1 <= nbad <= 2
+    post: __return__
+    """
+    import signal as _signal
+    from types import SimpleNamespace
+    import gunicorn.workers.sync as S
+    from engine.harness_api import ns
+    ei, loop, nbad = pick(ei, 0, 2), pick(loop, 0, 2), pick(nbad, 1, 2)
+    err = [errno.ECONNABORTED, errno.EAGAIN, errno.EWOULDBLOCK][ei]
+    calls = []
+
+    def app(environ, start_response):
+        calls.append(environ["RAW_URI"])
+        start_response("200 OK", [("Content-Length", "2")])
+        return [b"ok"]
+    cfg = W.make_cfg()
+    good = RecSock([GOOD])
+    script = [err] * nbad + [good]
+
+    def accept():
+        if not script:
+            w.alive = False                    # nothing more will come: end the loop (as TERM would)
+            raise OSError(errno.EAGAIN, "again")
+        item = script.pop(0)
+        if isinstance(item, int):
+            raise OSError(item, "accept failed")
+        return item, ("10.0.0.9", 1000)
+    if loop == 2:
+        # gthread: the real ThreadWorker.accept on a listener whose accept() fails
+        w = W.thread_worker(cfg, app)
+        w.tpool = W.SyncPool()
+        w.poller = W.Poller()
+        w.nr_conns = 0
+        lst = RecSock(name=("127.0.0.1", 8000))
+        lst.accept = accept
+        for _ in range(nbad + 1):
+            w.accept(lst.getsockname(), lst)
+        n = 0
+        while good in w.poller.reg and n < 3:
+            w.poller.reg[good](good)
+            w.futures.clear()
+            n += 1
+    else:
+        w = W.sync_worker(cfg, app)
+        lst = RecSock(name=("127.0.0.1", 8000))
+        lst.accept = accept
+        lst2 = RecSock(name=("127.0.0.1", 8001))
+        lst2.accept = lambda: (_ for _ in ()).throw(OSError(errno.EAGAIN, "again"))
+        w.sockets = [lst] if loop == 0 else [lst, lst2]
+        w.PIPE = [90, 91]
+        w.wait_fds = w.sockets + [90]
+        w.tmp = SimpleNamespace(notify=lambda: None)
+        w.timeout = 1.0
+        saved = S.select, S.os, S.util
+        S.select = ns("S.select", select=lambda r, w_, x, t: ([s_ for s_ in r if s_ != 90], [], []))
+        S.os = ns("S.os", getppid=lambda: 1, read=lambda fd, n: b"")
+        S.util = ns("S.util", close_on_exec=lambda fd: None, close=saved[2].close, reraise=saved[2].reraise)
+        try:
+            if loop == 0:
+                w.run_for_one(w.timeout)
+            else:
+                w.run_for_multiple(w.timeout)
+        finally:
+            S.select, S.os, S.util = saved
+    try:
+        rs = hr.parse_stream(good.wire(), [False])
+    except hr.Bad:
+        return False
+    return calls == ["/ok"] and len(rs) == 1 and rs[0]["code"] == 200 and good.closed >= 1
+
+
 def stall(cut: int) -> bool:
     """
     pre: 0 <= cut < len(GOOD)
@@ -301,6 +375,9 @@ OBLIGATIONS = [
        bound="async-base keep-alive loop: one complete request, then any prefix (0..len-1 bytes) of a second one, then the "
              "keep-alive timeout fires inside timeout_ctx()"),
     Ob("C05.ladder.twin", "ladder_twin", cases=[{"kind": "sync", "req": "cl_te", "cutlo": 0}], expect="refute", timeout=300),
+    Ob("C05.accept_abort", "accept_abort", timeout=300,
+       bound="accept() failing once or twice with ECONNABORTED / EAGAIN / EWOULDBLOCK before a good connection: sync run_for_one, "
+             "sync run_for_multiple (2 listeners), gthread accept"),
     Ob("C05.error_page", "error_page",
        cases={"quick": [{"exc": e, "n": 1} for e in EXC] + [{"exc": "Generic", "n": 2}],
               "thorough": [{"exc": e, "n": 2} for e in EXC] + [{"exc": e, "n": 3} for e in ("InvalidHeader", "InvalidRequestLine")]},
